@@ -1549,8 +1549,10 @@ impl LsmTree {
         struct Pins<'a>(&'a LsmTree, Vec<Setsum>);
         impl Drop for Pins<'_> {
             fn drop(&mut self) {
+                // Only give the reference back.  After a failed manifest edit nobody knows whether
+                // the edit is on disk, so the files stay where they are:  at worst as orphans.
                 for setsum in self.1.drain(..) {
-                    self.0.unref_sst(setsum);
+                    self.0.references.dec_and(setsum, || {});
                 }
             }
         }
